@@ -49,6 +49,15 @@ ENUM_IDENT = {
     ('process', 'properties'): PROPERTIES,
     ('channel', 'units'): UNIT_STRINGS,
 }
+# free text for the "soft" enumerations (accepted with a warning, written verbatim), incl. strings spelled like the NAMES of
+# the library's enum members (which are not values of the enumerations)
+FREE_UNITS = ['OHM', 'BAR', 'FOOT', 'DAY', 'KELVIN', 'METER', 'SECOND', 'Ohm', 'furlong']
+SOFT_FREE = {
+    ('frame', 'index_type'): ['BOREHOLE_DEPTH', 'VERTICAL_DEPTH', 'RADIAL_DRIFT', 'MY-INDEX'],
+    ('equipment', 'eq_type'): ['TOOL', 'SONDE', 'CABLE', 'Gizmo'],
+    ('equipment', 'location'): ['WELL', 'RIG', 'REMOTE', 'Moon'],
+    ('channel', 'units'): FREE_UNITS,
+}
 HARD_ENUMS = {('calibration_measurement', 'phase'), ('process', 'status'), ('zone', 'domain'),
               ('channel', 'properties'), ('computation', 'properties'), ('process', 'properties')}
 
@@ -198,6 +207,8 @@ def gen_scalar(r, op, kw, kind, ctx):
     """A valid scalar value spec for (op, kw) of the given kind.  ctx: refs available {type: [opidx]}."""
     if (op, kw) in ENUM_MEMBERS and r.random() < 0.35:
         return enum_member(r, (op, kw))
+    if (op, kw) in SOFT_FREE and r.random() < 0.2:
+        return r.choice(SOFT_FREE[(op, kw)])
     if (op, kw) in ENUM_IDENT:
         vals = ENUM_IDENT[(op, kw)]
         return r.choice(vals)
@@ -289,7 +300,7 @@ def gen_attr(r, op, kw, kind, multi, ctx, units_p=0.3, route=None, count=None):
             return None
     units = None
     if kind in schema.UNITS_KINDS and r.random() < units_p:
-        units = r.choice(UNIT_STRINGS)
+        units = r.choice(UNIT_STRINGS) if r.random() < 0.8 else r.choice(FREE_UNITS)
         if r.random() < 0.35:
             units = enum_member(r, ('channel', 'units'))      # a dliswriter.enums.Unit member instead of its string
     if route is None:
